@@ -715,6 +715,66 @@ def rule_bundle_protocol(F, R):
     R.floor("R-C03-10/clients", nsite, 6, "consumers of the multipliers in RQB / FPBA")
 
 
+def rule_decided_exits(F, R):
+    """R-C03-11: the main loop of the ellipsoid / RQB / FPBA solvers is left early only with a decided status: `break` is either the `then` of
+    `if (solver_t::done(...))` (done returned true: converged or failed was recorded), or it directly follows a done() call whose converged argument
+    is the constant true (or whose iter_ok is the constant false). Leaving the loop unconditionally after a done() that may have decided nothing
+    returns `max_iters` although the budget is not exhausted - for the ellipsoid's degenerate exit that is an epsilon-optimal point not reported
+    as converged."""
+    n = 0
+    for f in F.functions.values():
+        if f.body is None or f.is_lambda or f.name != "do_minimize" or not f.relfile.startswith("src/solver/") or \
+                not any(k_ in (f.cls or "") for k_ in ("ellipsoid", "rqb", "fpba")):
+            continue
+        loops = [x for x in f.nodes() if x["k"] == "while" and "max_evals" in pp(x["c"][x["r"].index("cond")])]
+        if len(loops) != 1:
+            R.incomplete("R-C03-11", (f.cls or "?").split("::")[-1], f.loc(), "expected one budget loop")
+            continue
+        loop = loops[0]
+
+        def const_value(n_, depth=0):
+            n_ = skip(n_)
+            while n_["k"] == "cast" and n_.get("c"):
+                n_ = skip(n_["c"][0])
+            if n_["k"] == "bool":
+                return bool(n_["v"])
+            if n_["k"] == "ref" and depth < 3:
+                v, _ = find_var(f, n_.get("d"))
+                if v is not None and v.get("c") and (v.get("t") or "").startswith("const "):
+                    return const_value(v["c"][0], depth + 1)
+            return None
+        for br in walk(loop):
+            if br["k"] != "break":
+                continue
+            anc = list(f.ancestors(br))
+            if any(a_["k"] in ("for", "while", "do", "switch", "rangefor") and a_ is not loop for a_ in anc[:anc.index(loop)]):
+                continue
+            n += 1
+            inst = "%s break@%d" % ((f.cls or "?").split("::")[-1].split("<")[0], br["l"])
+            ok, why = False, "no solver_t::done call decides the status before this exit"
+            ifs = [a_ for a_ in anc[:anc.index(loop)] if a_["k"] == "if"]
+            if ifs:
+                cnd = skip(ifs[0]["c"][ifs[0]["r"].index("cond")])
+                in_then = any(z is br for z in walk(ifs[0]["c"][ifs[0]["r"].index("then")]))
+                if cnd["k"] == "call" and callee(cnd) == "nano::solver_t::done" and in_then:
+                    ok = True
+            if not ok:
+                blk = f.parent_of(br)
+                sibs = blk.get("c", ()) if blk is not None and blk["k"] == "block" else ()
+                prev = [s_ for s_ in sibs if s_ is not None and s_["l"] <= br["l"] and s_ is not br]
+                dn = [c for s_ in prev for c in walk(s_) if c["k"] == "call" and callee(c) == "nano::solver_t::done"]
+                if dn:
+                    a_ = args(dn[-1])
+                    okv, cv = const_value(a_[1]), const_value(a_[2])
+                    if cv is True or okv is False:
+                        ok = True
+                    else:
+                        why = "`%s; break;` leaves the loop whatever done() returned: when `%s` is false (and the iteration is fine) no status was recorded and the solver returns " \
+                              "max_iters although the budget is not exhausted" % (pp(dn[-1])[:60], pp(a_[2])[:40])
+            R.check(ok, "R-C03-11", inst, f.loc(br), "an early exit of the main loop records converged or failed", why)
+    R.floor("R-C03-11", n, 4, "early exits of the ellipsoid / RQB / FPBA main loops")
+
+
 def run(ctx):
     R = ctx.report
     F = ctx.facts(TUS)
@@ -728,3 +788,4 @@ def run(ctx):
     rule_ellipsoid(F, R)
     rule_ellipsoid_update(F, R)
     rule_bundle_protocol(F, R)
+    rule_decided_exits(F, R)
